@@ -416,8 +416,9 @@ package cputensor
 //@ define valInjBody(k) := forallJ(J, forallJ(K, forallJ(S, imp(validUpTo(J, S, k) && validUpTo(K, S, k) && forall(j, 0, k, S[j] >= 1) && val(J, S, k) == val(K, S, k), sameOn(J, K, 0-1, k)))))
 //@ induct valInj: up valInjBody @uses valDef
 //@ axiom unvalDef: forallJ(S, forallI(k, forallI(p, unvalK(S, k, p) == ite(k <= 0, upd(zeroIdx(), 0-1, p), upd(unvalK(S, k-1, p / S[k-1]), k-1, p % S[k-1])))))
+//@ lemma divMod: forallI(p, forallI(s, imp(s >= 1 && p >= 0, (p / s) * s + p % s == p && 0 <= p % s && p % s < s && p / s >= 0)))
 //@ define unvalOKBody(k) := forallJ(S, forallI(p, imp(p >= 0 && forall(j, 0, k, S[j] >= 1), val(unvalK(S, k, p), S, k) == p && validUpTo(unvalK(S, k, p), S, k) && unvalK(S, k, p)[0-1] >= 0)))
-//@ induct unvalOK: up unvalOKBody @uses valDef, valExt, unvalDef
+//@ induct unvalOK: up unvalOKBody @uses valDef, valExt, unvalDef, divMod
 //@ lemma prodShp: forallT(t, imp(t != nil && published(t), prod(shp(t), 0, rank(t)) == nelems(t))) @uses dimsLink
 //@ axiom unvalT: forallT(t, forallI(p, unval(t, p) == unvalK(shp(t), rank(t), p)))
 //@ lemma unflatten: forallT(t, forallI(p, imp(t != nil && published(t) && 0 <= p && p < nelems(t), inb(t, unval(t, p)) && val(upd(unval(t, p), 0-1, 0), shp(t), rank(t)) == p))) @uses unvalT, unvalOK, valBound, prodShp, valExt
